@@ -83,7 +83,11 @@ func main() {
 		os.Exit(rc)
 	case "wire":
 		// development aid: dump the extracted wire sequences
-		prog, err := load.Load("/repo", "")
+		wrepo := "/repo"
+		if len(os.Args) > 2 {
+			wrepo = os.Args[2]
+		}
+		prog, err := load.Load(wrepo, "")
 		if err != nil {
 			fmt.Fprintln(os.Stderr, err)
 			os.Exit(2)
